@@ -66,7 +66,7 @@ def examine(label, src, sets, res, extra_kw=None):
     a = scopes.analyse(ast.parse(src))
     trig = [s for s in a.sites if s.name in ('exec', 'eval', 'locals', 'globals', 'vars')]
     star = 'import *' in src
-    if not star and (not trig or any(s.binding[0] != 'builtin' for s in trig)):
+    if not star and not any(s.binding[0] == 'builtin' for s in trig):      # at least one reference that the interpreter resolves to the builtin
         res.count('premise_not_met')
         return
     res.count('programs')
